@@ -145,6 +145,12 @@ fn registration_sets() -> Vec<Reg> {
         Reg { gg: vec![], lw: vec![(0, json!([{"key": "$SYS/evil", "value": 1}, {"key": "t", "value": 2}]))] },
         // a last will that names one key twice: applied entry by entry, the later entry wins
         Reg { gg: vec![], lw: vec![(0, json!([{"key": "t", "value": "first"}, {"key": "t", "value": "second"}, {"key": "a", "value": 3}]))] },
+        // entries that cannot be applied (a misplaced `#`, an empty pattern, a wildcard in a last-will
+        // key) in front of entries that can: each entry stands for itself
+        Reg {
+            gg: vec![(0, json!(["x/#/y", "", "a"])), (1, json!(["v"]))],
+            lw: vec![(0, json!([{"key": "w/?", "value": 1}, {"key": "t", "value": "lw"}]))],
+        },
         // one client has cleared its registrations (null) next to one that holds some
         Reg {
             gg: vec![(0, json!(["a", "v"])), (1, Value::Null)],
@@ -468,7 +474,7 @@ pub fn run_c09(tier: &str) -> i32 {
     ev.set("evaluations", json!(cases.len()));
     ev.set("distinct_nontrivial", json!(nontrivial.len()));
     ev.set("exhaustive", json!(true));
-    ev.set("rule", json!("store contents (every single entry over 9 key shapes (incl. a first segment that only starts with $SYS and $SYS as a later segment) x 10 JSON values x {plain, CAS at version 1, 2, 2^53+1, u64::MAX}; pairs and triples over a reduced value set) x 6 registration sets x on-disk layouts v3/v2/v1 x toggle present/absent; built through the real API, flushed with the real synchronous(), loaded through the real load() fall-back chain; distinct = distinct (values+kinds, registration set, layout, toggle state); all are non-trivial (every case stores at least one value)"));
+    ev.set("rule", json!("store contents (every single entry over 9 key shapes (incl. a first segment that only starts with $SYS and $SYS as a later segment) x 10 JSON values x {plain, CAS at version 1, 2, 2^53+1, u64::MAX}; pairs and triples over a reduced value set) x 7 registration sets x on-disk layouts v3/v2/v1 x toggle present/absent; built through the real API, flushed with the real synchronous(), loaded through the real load() fall-back chain; distinct = distinct (values+kinds, registration set, layout, toggle state); all are non-trivial (every case stores at least one value)"));
     ev.push_sample(json!({"entries": [["a", {"Cas": [1, 2]}, null]], "registration_set": 1, "layout": "v2", "flushes_before_load": 2}));
     ev.push_sample(json!({"entries": [["ä/β", 1e308, u64::MAX]], "registration_set": 0, "layout": "v3", "flushes_before_load": 1}));
     ev.assume("the reference takes the content at the flush from the instance itself (pget # cross-checked with the stored tree) and applies grave goods / last wills with the documented relation");
